@@ -130,7 +130,19 @@ pub fn check_backward(h: &HiddenCase, cx: &mut Cx) -> Res {
             }
             cx.class("reveal: both Ok, equal");
         }
-        (Caught::Ok(Err(_)), Err(_)) => cx.class("reveal: both Err"),
+        (Caught::Ok(Err(ce)), Err(se)) => {
+            // where a property states the error of a per-type fault (C20: truncated value, invalid UTF-8, unknown message type,
+            // bad error type, unknown attribute type) the revealed AVP's error is that one too
+            if let Some(want) = expected_error(se) {
+                if matches!(se, SErr::Incomplete(_) | SErr::BadUtf8(_) | SErr::UnknownMsgType(_) | SErr::BadErrorType(_) | SErr::UnknownAvp(_)) && ce != want {
+                    let mut v = render();
+                    v["crate_error"] = json!(format!("{:?}", ce));
+                    v["expected_error"] = json!(format!("{:?}", want));
+                    return fail(format!("reveal() reports {:?} for a decrypted value whose only fault is {:?}", ce, want), v);
+                }
+            }
+            cx.class("reveal: both Err")
+        }
         (Caught::Ok(Ok(c)), Err(e)) => {
             let mut v = render();
             v["crate"] = json!(format!("{:?}", c));
